@@ -270,6 +270,12 @@ func verifHarnessC19() {
 				verifAssert(err == nil && sc == want, "C19.zscore-reply")
 			}
 		case cRestart:
+			if verifParam("mergerestart") == 1 {
+				// the restart adopts a merge: every live structure record (metadata, fields, members, list slots,
+				// expiring strings) is rewritten by Merge and re-indexed through the hint file
+				verifAssert(dts.db.Merge() == nil, "C19.merge-err")
+				verifReach("merged")
+			}
 			verifAssert(dts.Close() == nil, "C19.close-err")
 			dts, err = NewDataTypeService(opts)
 			verifAssert(err == nil, "C19.reopen-err")
